@@ -18,6 +18,8 @@ func checkC13(c *fw.Ctx) {
 	c.Exhaustive = true
 	c.NotDecidedClause("grammar equivalence of ParseAuthorization with the X-Matrix header syntax")
 	c.NotDecidedClause("tamper detection as such (cryptography, C02)")
+	// the origin named in the header must be a valid server name: the validator's port rule
+	checkPortParse(c, "4 verify")
 	pkg := c.P.Pkg("fclient")
 	// 1. same struct on both sides
 	_, frst := fw.StructFieldNames(pkg, "FederationRequest")
